@@ -91,6 +91,13 @@ def gen_scenario(rng):
                       for f in T.FIELDS if rng.random() < 0.5}
         objects.append({'kind': 'table', 'recs': recs, 'fmt': fmt, 'header': rng.choice([None, "hdr"]),
                         'footer': rng.choice([None, "foot"]), 'titles': titles, 'tid': len(objects)})
+    if rng.random() < 0.5:
+        # a table whose columns are narrower than the first piece of their cells (the cut falls into the padding in front
+        # of an enum value, into the first of several pieces)
+        objects.append({'kind': 'table', 'recs': recs, 'fmt': rng.choice(["st:2,a:1", "st:1,st/full:3,b:2", "d/x:1,st:2",
+                                                                           "st/full:1-2,st:3", "d/x:4,st", "st,d/u:5,d/x:4",
+                                                                           "d/u:4"]),
+                        'header': None, 'footer': rng.choice([None, "f"]), 'titles': None})
     if rng.random() < 0.6:
         # a second table built from the format object of the first, showing records of other widths
         other = [list(r) for r in T.gen_records(rng, (2, 4, 9))]
